@@ -234,7 +234,8 @@ def _one(rng, tier, big=False):
 
 
 FIXED = [
-    # witnesses of the _refuted theorems, replayed on the implementation on every run
+    # the former counterexamples (F6, F7, F15, F18, F19: repaired, must now round-trip or be refused
+    # cleanly) and the witnesses of the remaining _refuted theorems (F20' root / lex, F21)
     {"universe": "F6", "jobs": [{"sp": typed({"a": v}), "files": {"f.txt": b"x".hex()}} for v in (1, 10, 100)],
      "asc": True, "kind": "zip", "path": {"t": "none"}, "schema": {"t": "none"}, "pre": [], "strip": False},
     {"universe": "F7", "jobs": [{"sp": typed({"a": v}), "files": {}} for v in (1, "1")],
@@ -260,6 +261,12 @@ FIXED = [
      "schema": {"t": "none"}, "pre": [{"sp": typed({"a": 1}), "files": {"f.txt": b"one".hex()}}], "strip": False},
     {"universe": "F20", "jobs": [{"sp": typed({"a": 1}), "files": {}}, {"sp": typed({"a": 2}), "files": {}}],
      "asc": True, "kind": "dir", "path": {"t": "call", "names": [".", "r1"], "mode": "byid_asc"},
+     "schema": {"t": "none"}, "pre": [], "strip": False},
+    {"universe": "F20-lex", "jobs": [{"sp": typed({"a": 1}), "files": {}}, {"sp": typed({"a": 2}), "files": {}}],
+     "asc": True, "kind": "dir", "path": {"t": "call", "names": ["a/x/../y", "a/x"], "mode": "byid_asc"},
+     "schema": {"t": "none"}, "pre": [], "strip": False},
+    {"universe": "F20-root-empty", "jobs": [{"sp": typed({"a": 1}), "files": {}}, {"sp": typed({"a": 2}), "files": {}}],
+     "asc": True, "kind": "zip", "path": {"t": "call", "names": [".", ""], "mode": "byid_asc"},
      "schema": {"t": "none"}, "pre": [], "strip": False},
     {"universe": "F21", "jobs": [{"sp": typed({"a": 1}), "files": {"emptydir": None}}, {"sp": typed({"a": 2}), "files": {}}],
      "asc": True, "kind": "zip", "path": {"t": "none"}, "schema": {"t": "none"}, "pre": [], "strip": False},
